@@ -500,6 +500,7 @@ type CallRule struct {
 	Requires []Clause
 	Sets     []GhostSet
 	Assume   []Clause // assumed facts about the call's results (listed as assumptions)
+	FrameNothing bool // the (dynamic/uncontracted) callee is assumed to write no caller-visible location
 	Matched  int
 }
 
@@ -828,6 +829,14 @@ func parseContractFile(path, pkgPath string) (*SpecFile, error) {
 				return nil, fail(err)
 			}
 			curCall.Sets = append(curCall.Sets, GhostSet{Var: strings.TrimSpace(parts[0]), E: e, Src: rest})
+		case "frame":
+			if curCall == nil {
+				return nil, fail(fmt.Errorf("frame outside call rule"))
+			}
+			if strings.TrimSpace(rest) != "nothing" {
+				return nil, fail(fmt.Errorf("only `frame nothing` is supported"))
+			}
+			curCall.FrameNothing = true
 		case "assume":
 			if curCall == nil {
 				return nil, fail(fmt.Errorf("assume outside call rule"))
